@@ -120,7 +120,7 @@ func fsGenTree(r *lib.Rng) hTree {
 	return t
 }
 
-func coqFsData(b []byte) string { return coqRle(b) }
+func coqFsData(b []byte) string { return c06CoqRle(b) }
 
 func runFSModel(c *Ctx) error {
 	r := c.Rng.Fork()
